@@ -151,7 +151,14 @@ impl Driver {
         let f = &w.sc.faults;
         // --- steady state
         let rec = w.epoch + 1;
-        let unsent: Vec<usize> = self.registering(w, w.epoch).into_iter().filter(|p| !w.registered_sent.contains_key(&(*p, rec))).collect();
+        // a party (re)sends its registration until the aggregator acknowledged it, like the real
+        // signer does on every cycle while unregistered
+        let needs_registration = |p: &usize| -> bool {
+            let acked = w.deliveries.iter().any(|d| d.status == 201 && matches!(&d.msg.kind, MsgKind::Registration { party, recording_epoch, .. } if party == p && *recording_epoch == rec));
+            let in_flight = w.inflight.values().any(|m| matches!(&m.kind, MsgKind::Registration { party, recording_epoch, .. } if party == p && *recording_epoch == rec));
+            !acked && !in_flight
+        };
+        let unsent: Vec<usize> = self.registering(w, w.epoch).into_iter().filter(needs_registration).collect();
         let om = w.current_open_message();
         let can_sign: Vec<usize> = match &om {
             Some(om) => (0..w.parties.len()).filter(|p| w.can_sign(*p, &om.entity)).collect(),
@@ -177,7 +184,17 @@ impl Driver {
             choices.push((if f.lag > 0.0 { (12.0 * (1.0 - f.lag)) as u32 + 2 } else { 1000 }, 5));
         }
         // chain progress
-        if self.since_epoch >= self.epoch_len && self.epochs_done < w.sc.epochs {
+        // without registration faults the chain only moves to the next epoch once every party that
+        // intends to register has been acknowledged (a real epoch lasts five days)
+        let registration_faults = f.partial_registration > 0.0 || f.drop > 0.0 || f.stale_delivery > 0.0;
+        let fault_free = !f.any();
+        let epoch_certified = !fault_free
+            || w.db().map(|db| db.certificates().iter().any(|c| !c.is_genesis && c.epoch == w.epoch)).unwrap_or(false);
+        if self.since_epoch >= self.epoch_len
+            && self.epochs_done < w.sc.epochs
+            && (registration_faults || unsent.is_empty())
+            && (epoch_certified || self.since_epoch >= 6 * self.epoch_len)
+        {
             choices.push((25, 6));
         }
         if w.sc.entity_types.iter().any(|t| t == "CDB") {
@@ -287,13 +304,14 @@ impl Driver {
 
 }
 
-/// Quiescence script (bounded liveness): faults have stopped. Everything outstanding is delivered,
-/// views are synced, every party registers and signs whatever is open, the aggregator ticks and its
-/// background tasks run; then every beacon dimension advances (immutable +1, epoch +1) twice more,
-/// so that the final epoch's signers are exactly the parties registered during quiescence.
+/// Quiescence script (bounded liveness): faults have stopped. Three phases: the current epoch,
+/// then twice "every beacon dimension advances" (immutable +1, epoch +1). In each phase everything
+/// outstanding is delivered, views are synced, every party registers and signs whatever is open,
+/// the aggregator ticks and its background tasks run. A `CheckLiveness` marker ends each phase.
 pub struct Quiescer {
     phase: u8,
     ticks: usize,
+    quiet_ticks: usize,
     limit: usize,
     next_id: u32,
     sub: u8,
@@ -305,7 +323,16 @@ pub struct Quiescer {
 
 impl Quiescer {
     pub fn new(sc: &Scenario) -> Quiescer {
-        Quiescer { phase: 0, ticks: 0, limit: 4 * (sc.entity_types.len() + 3), next_id: 1_000_000, sub: 0, done: false, tried: Default::default() }
+        Quiescer {
+            phase: 0,
+            ticks: 0,
+            quiet_ticks: 0,
+            limit: 4 * (sc.entity_types.len() + 3),
+            next_id: 1_000_000,
+            sub: 0,
+            done: false,
+            tried: Default::default(),
+        }
     }
 
     fn id(&mut self) -> u32 {
@@ -317,69 +344,72 @@ impl Quiescer {
         if self.done {
             return None;
         }
-        if !w.agg.is_up() {
-            return Some(Event::Restart);
-        }
-        if w.agg_view.lock().unwrap().down {
-            return Some(Event::ChainDown { down: false });
-        }
-        if !w.view_is_synced() {
-            return Some(Event::SyncView);
-        }
-        if let Some(id) = w.inflight.keys().next().copied() {
-            return Some(Event::Deliver { id, keep: false, damage: None });
-        }
-        // the registration round must be open (it is re-opened by the state machine after a restart)
-        let rec = w.epoch + 1;
-        if self.ticks >= 2 {
-            let unacked = (0..w.parties.len()).find(|p| {
-                !self.tried.contains(&(0, *p))
-                    && !w.deliveries.iter().any(|d| matches!(&d.msg.kind, MsgKind::Registration { party, recording_epoch, .. } if party == p && *recording_epoch == rec) && d.status == 201)
-                    && w.quiescence_register_attempts.get(&(*p, rec)).copied().unwrap_or(0) < 3
-            });
-            if let Some(p) = unacked {
-                self.tried.insert((0, p));
-                let id = self.id();
-                return Some(Event::Register { id, party: p, new_key: false });
+        if self.sub == 0 {
+            if !w.agg.is_up() {
+                return Some(Event::Restart);
             }
-            if let Some(om) = w.current_open_message()
-                && let Some(p) = (0..w.parties.len()).find(|p| !self.tried.contains(&(1, *p)) && w.can_sign(*p, &om.entity))
-            {
-                self.tried.insert((1, p));
-                let id = self.id();
-                return Some(Event::Sign { id, party: p, early: false });
+            if w.agg_view.lock().unwrap().down {
+                return Some(Event::ChainDown { down: false });
             }
-        }
-        if self.ticks < self.limit {
-            self.ticks += 1;
-            self.tried.clear();
-            return Some(if self.ticks % 3 == 0 { Event::Background { polls: 4 } } else { Event::Tick });
-        }
-        // the chain only moves on when the current epoch got its first certificate: an epoch
-        // without any certificate would (legitimately) block the aggregator on an epoch gap
-        let epoch_certified = w
-            .db()
-            .map(|db| db.certificates().iter().any(|c| !c.is_genesis && c.epoch == w.epoch))
-            .unwrap_or(false);
-        if self.phase < 2 && epoch_certified {
-            match self.sub {
-                0 => {
-                    self.sub = 1;
-                    return Some(Event::Background { polls: 4 });
+            if !w.view_is_synced() {
+                return Some(Event::SyncView);
+            }
+            if let Some(id) = w.inflight.keys().next().copied() {
+                self.quiet_ticks = 0;
+                return Some(Event::Deliver { id, keep: false, damage: None });
+            }
+            // the registration round is (re)opened by the state machine: let it tick first
+            let rec = w.epoch + 1;
+            if self.ticks >= 2 {
+                let unacked = (0..w.parties.len()).find(|p| {
+                    !self.tried.contains(&(0, *p))
+                        && !w.deliveries.iter().any(|d| matches!(&d.msg.kind, MsgKind::Registration { party, recording_epoch, .. } if party == p && *recording_epoch == rec) && d.status == 201)
+                        && w.quiescence_register_attempts.get(&(*p, rec)).copied().unwrap_or(0) < 4
+                });
+                if let Some(p) = unacked {
+                    self.tried.insert((0, p));
+                    self.quiet_ticks = 0;
+                    let id = self.id();
+                    return Some(Event::Register { id, party: p, new_key: false });
                 }
-                1 => {
-                    self.sub = 2;
-                    return Some(Event::Immutable);
-                }
-                _ => {
-                    self.sub = 0;
-                    self.phase += 1;
-                    self.ticks = 0;
-                    return Some(Event::Epoch { by: 1 });
+                if let Some(om) = w.current_open_message()
+                    && let Some(p) = (0..w.parties.len()).find(|p| !self.tried.contains(&(1, *p)) && w.can_sign(*p, &om.entity))
+                {
+                    self.tried.insert((1, p));
+                    self.quiet_ticks = 0;
+                    let id = self.id();
+                    return Some(Event::Sign { id, party: p, early: false });
                 }
             }
+            if self.ticks < self.limit || (self.quiet_ticks < 5 && self.ticks < 4 * self.limit) {
+                self.ticks += 1;
+                self.quiet_ticks += 1;
+                self.tried.clear();
+                return Some(if self.ticks % 3 == 0 { Event::Background { polls: 4 } } else { Event::Tick });
+            }
+            self.sub = 1;
+            return Some(Event::Background { polls: 4 });
         }
-        self.done = true;
-        Some(Event::CheckLiveness)
+        match self.sub {
+            1 => {
+                self.sub = 2;
+                Some(Event::CheckLiveness)
+            }
+            2 => {
+                if self.phase >= 2 {
+                    self.done = true;
+                    return None;
+                }
+                self.sub = 3;
+                Some(Event::Immutable)
+            }
+            _ => {
+                self.sub = 0;
+                self.phase += 1;
+                self.ticks = 0;
+                self.quiet_ticks = 0;
+                Some(Event::Epoch { by: 1 })
+            }
+        }
     }
 }
